@@ -6,6 +6,7 @@ B2 origin / side discipline of corrected splice sites and of the corrected read 
 B3 BED12 arithmetic identities of BEDPrinter
 """
 import ast
+import re
 
 from ..engine.program import AnalysisError, dotted, src, walk_no_nested, call_name
 from ..engine import flow
@@ -421,7 +422,48 @@ def b4(prog, ctx):
     ctx.floor("B4", "index-space obligations in match_genomic_features", n, 3)
 
 
+def b6(prog, ctx):
+    """An annotated intron enters the corrected intron chain only where the corrected read region is known to span it."""
+    pe = prog.func(EC, "ExonCorrector.process_events")
+    n = 0
+    for st in walk_no_nested(pe):
+        tgt = None
+        if isinstance(st, ast.AugAssign) and isinstance(st.target, ast.Name) and st.target.id == "new_introns":
+            tgt = st.value
+        elif isinstance(st, ast.Expr) and isinstance(st.value, ast.Call) and src(st.value.func) in ("new_introns.append", "new_introns.extend") \
+                and st.value.args:
+            tgt = st.value.args[0]
+        if tgt is None or "isoform_introns[" not in src(tgt):
+            continue
+        n += 1
+        blk = st._parent
+        siblings = getattr(blk, "body", []) if st in getattr(blk, "body", []) else getattr(blk, "orelse", [])
+        moves_region = [x for x in siblings if isinstance(x, ast.Assign) and dotted(x.targets[0]) == "corrected_read_region"
+                        and "isoform_region[" in src(x.value)]
+        guards = flow.guards_of(st, stop=pe)
+        contain = [g for g in guards if g.polarity and any(isinstance(c, ast.Call) and (call_name(c) or "").split(".")[-1] in
+                                                            ("contains_well_inside", "contains", "contains_approx")
+                                                            and c.args and src(c.args[0]) in ("read_region", "corrected_read_region")
+                                                            and "isoform_introns[" in src(c.args[1]) for c in ast.walk(g.test))]
+        keyed = [g for g in guards if g.polarity and re.search(r"-\s*i\s*-\s*1 in event_map", src(g.test))]
+        if moves_region:
+            ctx.ok("B6", "%s:%d" % (EC, st.lineno), "annotated intron added together with moving the read region end to the isoform's (%s)" % src(moves_region[0])[:60])
+        elif contain:
+            ctx.ok("B6", "%s:%d" % (EC, st.lineno), "annotated introns added under the containment guard %s" % src(contain[0].test)[:80])
+        elif keyed:
+            ctx.ok("B6", "%s:%d" % (EC, st.lineno), "annotated intron of a retained micro-intron (keyed -i-1: it lies inside a read exon)")
+        else:
+            ctx.fail("B6", st, pe._qualname, src(st)[:100], "annotated introns are inserted into the corrected chain here without the read "
+                     "region being moved to the isoform's end and without a guard that the read region contains them: an intron reaching "
+                     "past the read end yields a block with negative size / a corrected alignment outside the read")
+    ctx.floor("B6", "insertions of annotated introns into the corrected chain", n, 4)
+
+
 def run(prog, ctx):
+    ctx.rule("B6", "in process_events every insertion of isoform_introns[...] into new_introns either moves corrected_read_region to the "
+                   "isoform region end in the same branch, or is dominated by contains*(read_region, <those introns' span>), or is the "
+                   "-i-1 keyed micro-intron case")
+    b6(prog, ctx)
     ctx.rule("B4", "match_genomic_features keeps one index space: matched_features holds positions in known_features, its filtered "
                    "replacement keeps elements of the filtered list, and the offered intron is known_features[that position]")
     ctx.rule("B1", "in ExonCorrector.process_events every statement through which an annotation-origin value (potential/isoform "
@@ -437,4 +479,9 @@ def run(prog, ctx):
     b2(prog, ctx)
     b3(prog, ctx)
     b4(prog, ctx)
+    ctx.rule("B5", "the read span the corrector starts from (read_start/read_end) is taken from read_exons as it is after the last "
+                   "polyA/polyT trim, and the parallel block lists are trimmed identically (slice-chain simulation shared with C16/Q2): "
+                   "a stale span moves the first/last corrected block although no correction applies")
+    from . import c16
+    c16.q2(prog, ctx, tag="B5")
     ctx.assume("positivity / ordering of blocks needs sorted exons (value-level); the short-read corrector is data-dependent; not decided")
